@@ -36,3 +36,37 @@ contract("usim._primitives.condition.Condition.__subscribe__",
          modifies=["Notification._waiting@self", "Loop._pending@loop", "Interrupt.sub@interrupt", "Interrupt.target@interrupt",
                    "Interrupt.pos@interrupt", "Interrupt.scheduled@interrupt", "Interrupt.due@interrupt"],
          props=["C07", "C08", "C03"])
+
+# ---- Inv_cond1 (C08): no waiter stays parked on a condition that is true
+invariant("Flag", "no_waiter_when_true", "implies(self._value, len(self._waiting) == 0)", props=["C08"])
+invariant("Flag", "has_inverse", "self._inverse is not None and self._inverse._event is self", props=["C08"])
+invariant("InverseFlag", "no_waiter_when_true",
+          "self._event is not None and self._event._inverse is self and implies(not self._event._value, len(self._waiting) == 0)",
+          props=["C08"])
+
+contract("usim._primitives.flag.Flag.__init__",
+         params={"self": REF("Flag")},
+         requires=["forall(Interrupt, lambda i: i.sub is not self)", "forall(InverseFlag, lambda f: f._event is not self)",
+                   "forall(Notification, lambda n: n.lock is None or True)"],
+         ensures=["self._value == False", "len(self._waiting) == 0", "self._inverse._event is self", "len(self._inverse._waiting) == 0"],
+         modifies=["Flag._value@self", "Flag._inverse@self", "Notification._waiting", "InverseFlag._event"],
+         props=["C08"])
+
+contract("usim._primitives.flag.Flag.set",
+         params={"self": REF("Flag"), "to": BOOL},
+         requires=["loop.activity is me"],
+         suspends=(1, None),
+         # the new value is in force, and everybody it makes runnable is scheduled, before the setter yields (C08)
+         at_suspension=["self._value == to"],
+         ensures=["loop.activity is me"],
+         on_signal=["loop.activity is me"], on_close=[],
+         on_exit=["forall_new(Interrupt, lambda i: i.sub is None and (i._revoked or not i.scheduled))"],
+         props=["C08", "C20"])
+
+contract("usim._primitives.flag.InverseFlag.set",
+         params={"self": REF("InverseFlag"), "to": BOOL},
+         requires=["loop.activity is me"],
+         suspends=(1, None),
+         ensures=["loop.activity is me"],
+         on_signal=["loop.activity is me"], on_close=[],
+         props=["C08", "C20"])
